@@ -15,6 +15,7 @@ THEOREMS = [P + n for n in (
     "heun_linear_exact", "mft_field_is_heun", "stage_times_accurate", "mft_linear_exact",
     "methods_agree", "methods_agree_final_only", "eom_calls_agree",
     "no_field_dependence_mft", "no_field_dependence_cdwf", "plain_sample_times",
+    "plain_dissipator_times", "diss_args_current_time", "defaults_agree",
     "ham_args_linearised", "int_linearised_from_step_start", "step_indices", "statement_order")] + [
     "OQuPyVerif.MeanField.cdwfIter_spec", "OQuPyVerif.MeanField.mftIter_spec",
     "OQuPyVerif.MeanField.cdwf_loop_rk1_time_grid", "OQuPyVerif.MeanField.cdwf_final_rk1_time_grid",
@@ -77,6 +78,22 @@ def gen_case(rng, tier, **force):
         "record_all": force.get("record_all", rng.random() < 0.6),
         "dkmax": rng.choice([1, 2, 3]),
     }
+    # second generation of inputs (drawn after the first so that older seeds keep their cases):
+    # time dependent Lindblad rates / operators, a Hamiltonian non-linear in t within a step and
+    # non-linear in the field, DEFAULT propagator settings (subdiv = "default": not passed at all)
+    nl = force.get("nl", rng.choice([0, 0, 1, 2]))
+    case["gam"] = [[[rng.uniform(0.05, 0.4), rng.uniform(0.5, 4.0)] for _ in range(nl)] for _ in dims]
+    case["lop"] = [[np.array([[_cplx(rng, 1.0 / d) for _ in range(d)] for _ in range(d)])
+                    for _ in range(nl)] for d in dims]
+    case["lw"] = rng.uniform(0.5, 4.0)
+    case["anl"] = [_herm(rng, d, 0.6) for d in dims]
+    case["q"] = force.get("q", rng.choice([0.0, 0.0, 0.9]))
+    if "hw" in force:
+        case["hw"] = force["hw"]
+    elif rng.random() < 0.25:
+        case["hw"] = 9.0
+    if "subdiv" not in force and rng.random() < 0.3:
+        case["subdiv"] = "default"
     return case
 
 
@@ -113,15 +130,21 @@ def case_from_json(d):
 # ---------------------------------------------------------------------------
 
 class Problem:
-    """oqupy objects of a case; `eom_log` / `ham_log` collect every call of the user's
-    field_eom / Hamiltonians: (t, [states], a, value) / (system, t, a)."""
+    """oqupy objects of a case; `eom_log` / `ham_log` / `diss_log` collect every call of the user's
+    field_eom / Hamiltonians / Lindblad rates and operators:
+    (t, [states], a, value) / (system, t, a) / (kind, system, term, t)."""
 
     def __init__(self, case):
         import oqupy
         from . import oq
         self.case = case
-        self.eom_log, self.ham_log = [], []
+        self.eom_log, self.ham_log, self.diss_log = [], [], []
         c, ws = case["c"], case["w"]
+        nsys = len(case["dims"])
+        gam = case.get("gam") or [[] for _ in range(nsys)]
+        lop = case.get("lop") or [[] for _ in range(nsys)]
+        lw, q = case.get("lw", 1.0), case.get("q", 0.0)
+        anl = case.get("anl")
 
         def eom(t, states, a):
             val = c[0] + c[1] * t + c[2] * t * t + c[3] * a + c[4] * a * t
@@ -138,25 +161,52 @@ class Problem:
 
             def ham(t, a):
                 self.ham_log.append((i, float(t), complex(a)))
+                self.diss_log.append(("h", i, -1, float(t)))
                 h = h0 + np.cos(hw * t) * h1
                 if use:
                     h = h + a * g + np.conj(a) * g.conj().T
+                    if q != 0.0:
+                        h = h + q * abs(a) ** 2 * anl[i]
                 return h
             return ham
 
+        def rate(i, j, log):
+            g0, w = gam[i][j]
+
+            def f(t):
+                if log:
+                    self.diss_log.append(("g", i, j, float(t)))
+                return g0 * (1.0 + 0.6 * np.sin(w * t))
+            return f
+
+        def lind(i, j, log):
+            m = lop[i][j]
+
+            def f(t):
+                if log:
+                    self.diss_log.append(("l", i, j, float(t)))
+                return (1.0 + 0.5 * np.cos(lw * t)) * m
+            return f
+
         self.plain_h = [(lambda t, i=i: case["h0"][i] + np.cos(case["hw"] * t) * case["h1"][i])
-                        for i in range(len(case["dims"]))]
-        self.systems = [oqupy.TimeDependentSystemWithField(make_h(i)) for i in range(len(case["dims"]))]
+                        for i in range(nsys)]
+        self.plain_diss = [([rate(i, j, False) for j in range(len(gam[i]))],
+                            [lind(i, j, False) for j in range(len(gam[i]))]) for i in range(nsys)]
+        self.systems = [oqupy.TimeDependentSystemWithField(
+            make_h(i), gammas=[rate(i, j, True) for j in range(len(gam[i]))],
+            lindblad_operators=[lind(i, j, True) for j in range(len(gam[i]))]) for i in range(nsys)]
         self.mfs = oqupy.MeanFieldSystem(self.systems, eom)
         self.baths = [oqupy.Bath(np.diag(np.array(cp, dtype=complex)), oq.cheap_bath().correlations)
                       for cp in case["coupling"]]
-        self.params = oqupy.TempoParameters(dt=case["dt"], epsrel=EPSREL, dkmax=case["dkmax"],
-                                            subdiv_limit=case["subdiv"])
+        # "default": the propagator settings are not passed anywhere (the methods' own defaults)
+        self.kw = {} if case["subdiv"] == "default" else {"subdiv_limit": case["subdiv"]}
+        self.params = oqupy.TempoParameters(dt=case["dt"], epsrel=EPSREL, dkmax=case["dkmax"], **self.kw)
         self.end = case["start"] + (case["n"] + 0.5) * case["dt"]
 
     def reset(self):
         self.eom_log.clear()
         self.ham_log.clear()
+        self.diss_log.clear()
 
     def run_mft(self):
         import oqupy
@@ -165,7 +215,7 @@ class Problem:
                                  case["a0"], start_time=case["start"])
         self.reset()
         dyn = m.compute(self.end if case["n"] > 0 else case["start"], progress_type="silent")
-        return _result(dyn, self.eom_log, self.ham_log)
+        return _result(dyn, self.eom_log, self.ham_log, self.diss_log)
 
     def process_tensors(self):
         import oqupy
@@ -190,8 +240,8 @@ class Problem:
             num_steps=case["n"], initial_state_list=[r.copy() for r in case["rho0"]],
             start_time=case["start"],
             record_all=case["record_all"] if record_all is None else record_all,
-            subdiv_limit=case["subdiv"], progress_type="silent")
-        return _result(dyn, self.eom_log, self.ham_log)
+            progress_type="silent", **self.kw)
+        return _result(dyn, self.eom_log, self.ham_log, self.diss_log)
 
     def run_plain(self):
         """field-free references: Tempo / compute_dynamics per system with H(t) only"""
@@ -199,14 +249,15 @@ class Problem:
         case = self.case
         out_t, out_c = [], []
         for i in range(len(case["dims"])):
-            sysm = oqupy.TimeDependentSystem(self.plain_h[i])
+            sysm = oqupy.TimeDependentSystem(self.plain_h[i], gammas=self.plain_diss[i][0],
+                                             lindblad_operators=self.plain_diss[i][1])
             t = oqupy.Tempo(sysm, self.baths[i], self.params, case["rho0"][i].copy(),
                             start_time=case["start"])
             out_t.append(t.compute(self.end, progress_type="silent").states)
             d = oqupy.compute_dynamics(sysm, initial_state=case["rho0"][i].copy(), dt=case["dt"],
                                        num_steps=case["n"], start_time=case["start"],
                                        process_tensor=[self.process_tensors()[i]],
-                                       subdiv_limit=case["subdiv"], progress_type="silent")
+                                       progress_type="silent", **self.kw)
             out_c.append(d.states)
         return out_t, out_c
 
@@ -221,9 +272,9 @@ def _dedup(log):
     return out
 
 
-def _result(dyn, eom_log, ham_log):
+def _result(dyn, eom_log, ham_log, diss_log=()):
     ham_log = _dedup(ham_log)
-    return {"times": [float(t) for t in dyn.times],
+    return {"diss": _dedup(list(diss_log)),"times": [float(t) for t in dyn.times],
             "fields": [complex(f) for f in dyn.fields],
             "states": [np.array(sd.states) for sd in dyn.system_dynamics],   # [system][time]
             "eom": list(eom_log), "ham": list(ham_log)}
@@ -344,6 +395,43 @@ def compare_ham(case, real, outs):
     return []
 
 
+def compare_diss(case, real, outs):
+    """times handed to the Lindblad rates / operators (sampling propagators) vs the model"""
+    from fractions import Fraction
+    gam = case.get("gam") or [[] for _ in case["dims"]]
+    log = [x for x in real["diss"] if x[0] != "h"]
+    want = []
+    for k, out in enumerate(outs):
+        tok = out.split()
+        if len(tok) != 8:
+            raise fw.Infra("driver answer not understood: " + out[:200])
+        halves = [(parse_rat(tok[4]), parse_rat(tok[5])), (parse_rat(tok[6]), parse_rat(tok[7]))]
+        for i in range(len(case["dims"])):
+            for (tg, tl) in halves:
+                want += [("g", i, j, tg) for j in range(len(gam[i]))]
+                want += [("l", i, j, tl) for j in range(len(gam[i]))]
+    if len(log) != len(want):
+        return ["number of rate/Lindblad-operator evaluations: impl %d, model %d" % (len(log), len(want))]
+    for x, y in zip(log, want):
+        if x[:3] != y[:3] or Fraction(*x[3].as_integer_ratio()) != y[3]:
+            return ["%s of system %d, term %d: impl evaluates it at t=%r, model at t=%r"
+                    % ("rate" if y[0] == "g" else "Lindblad operator", y[1], y[2], x[3], float(y[3]))]
+    return []
+
+
+def diss_follow_ham(real):
+    """every rate / Lindblad operator is evaluated at the time of the Hamiltonian evaluation of
+    the same Liouvillian (theorem plain_dissipator_times), whatever the quadrature nodes are"""
+    last = {}
+    for kind, i, j, t in real["diss"]:
+        if kind == "h":
+            last[i] = t
+        elif last.get(i) != t:
+            return ["%s of system %d, term %d evaluated at t=%r inside the Liouvillian at t=%r"
+                    % ("rate" if kind == "g" else "Lindblad operator", i, j, t, last.get(i))]
+    return []
+
+
 def cross_method(case, mft, cd, record_all):
     """mean-field TEMPO vs compute_dynamics_with_field on the same problem (spec-level relation)."""
     bad = []
@@ -404,13 +492,21 @@ def corpus_cases():
 
 def correspondence(res, tier, rng):
     cases = [("corpus:" + f, c) for f, c in corpus_cases()]
-    ngen = 12 if tier == "quick" else 90
+    ngen = 14 if tier == "quick" else 90
     # fixed coverage first, then random
     forced = [dict(dims=[2], n=1, kind="linear-t", start=1.0, dt=0.1, subdiv=None, record_all=True),
               dict(dims=[2, 3, 2], n=3, kind="full", start=-0.7, subdiv=None, record_all=False),
               dict(dims=[2], n=0, kind="full", record_all=True),
               dict(dims=[3, 2], n=2, kind="full", field_in_h=False, subdiv=64, record_all=True),
-              dict(dims=[2, 3], n=2, kind="time-only", start=2.3, subdiv=64, record_all=True)]
+              dict(dims=[2, 3], n=2, kind="time-only", start=2.3, subdiv=64, record_all=True),
+              # default propagator settings everywhere, Hamiltonian fast in t and non-linear in a
+              dict(dims=[2], n=3, kind="full", start=-0.3, dt=0.1, subdiv="default", hw=9.0, q=0.9,
+                   nl=0, record_all=True),
+              # field-free sub-systems with time dependent rates / Lindblad operators
+              dict(dims=[2, 3], n=3, kind="full", start=0.5, dt=0.1, field_in_h=False, subdiv=None,
+                   nl=2, record_all=True),
+              dict(dims=[2], n=3, kind="full", start=0.5, dt=0.1, field_in_h=False,
+                   subdiv="default", nl=1, hw=9.0, record_all=False)]
     for i, f in enumerate(forced):
         cases.append(("forced%d" % i, gen_case(rng, tier, **f)))
     for i in range(ngen - len(forced)):
@@ -425,7 +521,12 @@ def correspondence(res, tier, rng):
         res.count("eom:" + case["kind"])
         res.count("start_time%s0" % ("=" if case["start"] == 0.0 else "!="))
         res.count("record_all=%s" % case["record_all"])
-        res.count("propagators:" + ("sampled" if case["subdiv"] is None else "integrated"))
+        res.count("propagators:" + ("sampled" if case["subdiv"] is None else
+                                    "integrated-default-arguments" if case["subdiv"] == "default"
+                                    else "integrated"))
+        res.count("lindblad-terms=%d" % len((case.get("gam") or [[]])[0]))
+        if case.get("q") or case["hw"] == 9.0:
+            res.count("hamiltonian non-linear in field / fast in t")
         res.count("steps=%d" % case["n"])
         entry = {"name": name, "case": case, "mft": mft, "cd": cd, "e1": e1, "e2": e2, "ops": {}}
         for meth, real, rec in (("mft", mft, True), ("cdwf", cd, case["record_all"])):
@@ -485,9 +586,14 @@ def correspondence(res, tier, rng):
             hop = e["ops"].get(meth + "-ham")
             if hop is not None:
                 bad = compare_ham(case, real, out[hop[0]:hop[0] + hop[1]])
-                res.case(key + " hamiltonian-args", nontrivial)
+                bad += compare_diss(case, real, out[hop[0]:hop[0] + hop[1]])
+                res.case(key + " hamiltonian/dissipator-args", nontrivial)
                 for b in bad:
                     res.disagree("%s vs model: %s" % (meth, b), {"case": cj, "method": meth, "what": b})
+            if real is not None and any(x[0] != "h" for x in real["diss"]):
+                res.case(key + " dissipator-times", True)
+                for b in diss_follow_ham(real):
+                    res.disagree("%s: %s" % (meth, b), {"case": cj, "method": meth, "what": b})
         # the two real methods against each other (times exact, the rest to the truncation level)
         if e["mft"] is not None and e["cd"] is not None:
             bad = cross_method(case, e["mft"], e["cd"], case["record_all"])
@@ -531,8 +637,14 @@ def oracle_case(res, case, tag=""):
     mft, e1 = _safe(p.run_mft)
     cd, e2 = _safe(p.run_cdwf)
     found = False
-    what = "start_time=%r dt=%r num_steps=%d systems=%s eom=%s" % (
-        case["start"], case["dt"], case["n"], case["dims"], case["kind"])
+    nl = len((case.get("gam") or [[]])[0])
+    default = case["subdiv"] == "default"
+    what = "start_time=%r dt=%r num_steps=%d systems=%s eom=%s, %s, %d time dependent Lindblad term(s) " \
+           "per system, H(t) ~ cos(%.3g t)%s" % (
+               case["start"], case["dt"], case["n"], case["dims"], case["kind"],
+               "DEFAULT subdiv_limit/liouvillian_epsrel everywhere" if default
+               else "subdiv_limit=%r passed to all methods" % (case["subdiv"],),
+               nl, case["hw"], " + %.2g |a|^2 A" % case["q"] if case.get("q") and case["field_in_h"] else "")
     if mft is None or cd is None:
         if case["n"] == 0 and cd is None and mft is not None:
             res.fail("zero-steps:compute_dynamics_with_field",
@@ -559,7 +671,8 @@ def oracle_case(res, case, tag=""):
                     break
     bad = cross_method(case, mft, cd, case["record_all"])
     if bad:
-        dep = "time-dependent-eom" if case["kind"] != "autonomous" else "autonomous-eom"
+        dep = "default-arguments" if default else \
+            "time-dependent-eom" if case["kind"] != "autonomous" else "autonomous-eom"
         res.fail("cross-method:" + dep,
                  {"case": cj, "how": "MeanFieldTempo and compute_dynamics_with_field (process tensors "
                   "of the same baths) differ, %s: %s" % (what, "; ".join(bad[:3])),
@@ -572,13 +685,21 @@ def oracle_case(res, case, tag=""):
             d1 = np.max(np.abs(np.array(st[i]) - mft["states"][i]))
             ref = np.array(sc[i]) if case["record_all"] else np.array(sc[i])[-1:]
             d2 = np.max(np.abs(ref - cd["states"][i]))
+            suffix = (" time-dependent-dissipators" if nl else "") + (" default-arguments" if default else "")
             if d1 > 1e-9:
-                res.fail("no-field-dependence:MeanFieldTempo", {"case": cj, "how": what, "diff": d1})
+                res.fail("no-field-dependence:MeanFieldTempo" + suffix,
+                         {"case": cj, "diff": d1, "how": "the Hamiltonians ignore the field, yet system "
+                          "%d of MeanFieldTempo differs by %.3g from Tempo with the same "
+                          "TimeDependentSystem (%s)" % (i, d1, what)})
                 found = True
             if d2 > 1e-9:
-                res.fail("no-field-dependence:compute_dynamics_with_field",
-                         {"case": cj, "how": what, "diff": d2})
+                res.fail("no-field-dependence:compute_dynamics_with_field" + suffix,
+                         {"case": cj, "diff": d2, "how": "the Hamiltonians ignore the field, yet system "
+                          "%d of compute_dynamics_with_field differs by %.3g from compute_dynamics with "
+                          "the same TimeDependentSystem and process tensor (%s)" % (i, d2, what)})
                 found = True
+            if found:
+                break
     return found
 
 
@@ -586,7 +707,7 @@ def witness_case():
     """DESIGN §5 #6: f = 2t, t0 = 1, dt = 0.1, a0 = 0.3: one step gives 0.51 exactly"""
     rng = random.Random(1234)
     case = gen_case(rng, "quick", dims=[2], n=1, kind="linear-t", start=1.0, dt=0.1, subdiv=None,
-                    record_all=True, field_in_h=False)
+                    record_all=True, field_in_h=False, nl=0, q=0.0, hw=1.0)
     case["c"] = [0j, 2 + 0j, 0j, 0j, 0j]
     case["a0"] = 0.3 + 0j
     return case
@@ -605,6 +726,14 @@ def search(res, rng=None):
             oracle_case(res, case_from_json(cj))
     # (c) zero steps
     oracle_case(res, gen_case(rng, "quick", dims=[2], n=0, kind="full"))
+    # (c') default propagator settings with a Hamiltonian fast in t and non-linear in the field;
+    #      field-free sub-systems with time dependent dissipators, sampled and default-integrated
+    oracle_case(res, gen_case(rng, "quick", dims=[2], n=4, kind="full", start=-0.3, dt=0.1,
+                              subdiv="default", hw=9.0, q=0.9, nl=0, record_all=True))
+    oracle_case(res, gen_case(rng, "quick", dims=[2], n=4, kind="full", start=0.5, dt=0.1,
+                              field_in_h=False, subdiv=None, nl=2, record_all=True))
+    oracle_case(res, gen_case(rng, "quick", dims=[2], n=4, kind="full", start=0.5, dt=0.1,
+                              field_in_h=False, subdiv="default", nl=1, hw=9.0, record_all=True))
     # (d) fresh inputs: linear-in-time and fully time dependent equations, start_time != 0,
     #     1-3 systems, both record_all settings, field-free Hamiltonians
     for i in range(10):
@@ -626,7 +755,11 @@ def run(tier, seed, replay):
         "mean-field problems: 1-3 systems of dimensions 2/3, random Hermitian time- and field-dependent "
         "Hamiltonians, field equation c0+c1 t+c2 t^2+c3 a+c4 a t+sum tr(W rho) (sub-families linear-t, "
         "time-only, autonomous), start_time in {0, !=0}, dt in {0.1,0.05,0.2,0.125,0.07}, 0-6 steps, "
-        "both record_all settings, sampled and integrated propagators, baths with dkmax 1-3.  Real "
+        "both record_all settings, propagators sampled (subdiv_limit=None), integrated (64) and with the "
+        "methods' DEFAULT settings (nothing passed), Hamiltonians slow/fast (cos 9t) in t and linear / "
+        "|a|^2 in the field, 0-2 time dependent Lindblad rates and operators per system (times handed "
+        "to them logged and compared with dissArgs bit-exactly; in integrated runs against the "
+        "Hamiltonian's time of the same Liouvillian), baths with dkmax 1-3.  Real "
         "MeanFieldTempo and compute_dynamics_with_field (process tensors of the same baths) run with "
         "the user's field_eom / Hamiltonians wrapped to log every (t, states, field) argument; the "
         "Lean model (mftIter / cdwfRun / hamArgs, the definitions of the theorems) runs on the logged "
